@@ -171,3 +171,56 @@ Qed.
 Check C06_same_events_every_schedule.
 Check C06_same_verdict_and_files_for_every_work_order.
 Check C06_same_verdict_and_files_for_every_interleaving.
+
+(* ---- clean under every interleaving of its rule threads (round 4; Model/CleanFine.v, Proofs/CleanFine*.v) ----
+   Any two complete runs of a clean give the same verdict, the same file at every workspace path, the same CONTENT under
+   every cache name, the same histories and table — under the fine clock (disk invariant) and under any clock (per-path
+   invariant) — and agree with the serial Build.clean. What does depend on the order, and nothing else: which of two
+   byte-identical files ends up as the cache entry (CleanFineFacts.clean_fine_entry_attributes_depend_on_order). *)
+From Coq Require Import Relations.
+From Ruler Require Import Bytes AList RuleSyntax TopoSort World Work Build Ops Inv InvFacts BuildSpec C01Facts C02Sym CoarseInv C18CoarseFacts Sched Fine FineCor CleanFine CleanFineBasic CleanFineInv CleanFineFacts.
+Local Open Scope nat_scope.
+
+Theorem C06_clean_serial_run_is_the_clean : forall (w : world sym) rp goal w1 tbl pack,
+  init_dir sym w = Ok (w1, tbl) -> get_nodes sym w1 rp goal = Ok pack ->
+  clean_fine_sym (cserial (node_blobs SContent tbl (p_nodes pack))) w rp goal = clean_sym w rp goal.
+Proof. exact clean_fine_serial_sym. Qed.
+Print Assumptions C06_clean_serial_run_is_the_clean.
+
+Theorem C06_clean_same_outcome_for_every_interleaving : forall (w : world sym) rp goal ch1 ch2,
+  disk_inv sym_eqb SContent w ->
+  clean_complete_sym ch1 w rp goal -> clean_complete_sym ch2 w rp goal ->
+  let o1 := clean_fine_sym ch1 w rp goal in
+  let o2 := clean_fine_sym ch2 w rp goal in
+  o_verdict o1 = o_verdict o2 /\
+  (forall p, fget (o_world o1) p = fget (o_world o2) p) /\
+  (forall t, cache_content sym_eqb (o_world o1) t = cache_content sym_eqb (o_world o2) t) /\
+  rd_hist (w_rd (o_world o1)) = rd_hist (w_rd (o_world o2)) /\
+  rd_table (w_rd (o_world o1)) = rd_table (w_rd (o_world o2)).
+Proof. exact clean_fine_schedule_independent_sym. Qed.
+Print Assumptions C06_clean_same_outcome_for_every_interleaving.
+
+Theorem C06_clean_same_outcome_for_every_interleaving_any_clock : forall (w : world sym) rp goal ch1 ch2,
+  coarse_inv sym_eqb SContent w ->
+  clean_complete_sym ch1 w rp goal -> clean_complete_sym ch2 w rp goal ->
+  let o1 := clean_fine_sym ch1 w rp goal in
+  let o2 := clean_fine_sym ch2 w rp goal in
+  o_verdict o1 = o_verdict o2 /\
+  (forall p, fget (o_world o1) p = fget (o_world o2) p) /\
+  (forall t, cache_content sym_eqb (o_world o1) t = cache_content sym_eqb (o_world o2) t) /\
+  rd_hist (w_rd (o_world o1)) = rd_hist (w_rd (o_world o2)) /\
+  rd_table (w_rd (o_world o1)) = rd_table (w_rd (o_world o2)).
+Proof. exact clean_fine_schedule_independent_coarse_sym. Qed.
+Print Assumptions C06_clean_same_outcome_for_every_interleaving_any_clock.
+
+Theorem C06_clean_every_interleaving_equals_the_clean : forall (w : world sym) rp goal ch,
+  disk_inv sym_eqb SContent w -> clean_complete_sym ch w rp goal ->
+  let o1 := clean_fine_sym ch w rp goal in
+  let o2 := clean_sym w rp goal in
+  o_verdict o1 = o_verdict o2 /\
+  (forall p, fget (o_world o1) p = fget (o_world o2) p) /\
+  (forall t, cache_content sym_eqb (o_world o1) t = cache_content sym_eqb (o_world o2) t) /\
+  rd_hist (w_rd (o_world o1)) = rd_hist (w_rd (o_world o2)) /\
+  rd_table (w_rd (o_world o1)) = rd_table (w_rd (o_world o2)).
+Proof. exact clean_fine_equals_clean_sym. Qed.
+Print Assumptions C06_clean_every_interleaving_equals_the_clean.
